@@ -1,5 +1,76 @@
+import Spq.Q120
 import Spq.Drv.Util
-/- driver family stub (filled in by the owner of this family) -/
+/-
+  driver family `q1` (q120 arithmetic).  Stateless: the constants the real code used (read by the
+  harness from the library headers / live precomp objects) are on every op line.
+
+  products (answer: the raw output lanes, 4 / 8 / 16 uint64):
+    q1 baa    <ref|avx2> ell h hpow[4]                                  | x (4·ell lanes)  | y (4·ell lanes)
+    q1 bbb    <ref|avx2> ell h s1h[4] s2l[4] s2h[4] s3l[4] s3h[4] s4l[4] s4h[4] | x | y
+    q1 bbc    <ref|avx2> ell h s2l[4] s2h[4]                            | x (4·ell)        | y (4·ell lanes = layout c as uint64)
+    q1 x2bbc1 <ref|avx2> ell h s2l[4] s2h[4]                            | x (8·ell)        | y (8·ell)
+    q1 x2bbc2 <ref|avx2> ell h s2l[4] s2h[4]                            | x (8·ell)        | y (16·ell)
+  block copies:
+    q1 extract  nn blk        | src                -> 8 lanes
+    q1 extractc nn nrows blk  | src                -> 8·nrows lanes
+    q1 save     nn blk        | dest | src(8)      -> whole dest
+  conversions (layout c printed as uint32 words, 8 per element):
+    q1 addbbb    nn q[4]        | x | y
+    q1 addccc    nn q[4]        | x | y
+    q1 cfromb    nn q[4]        | x
+    q1 bfromznx  nn q[4]        | int64…
+    q1 cfromznx  nn q[4]        | int64…
+    q1 btoznx128 nn q[4] crt[4] | x                -> nn signed decimal integers
+-/
 namespace Spq.Drv
-def handleQ1 (_args : List String) : Option String := none
+open Spq Spq.Q120
+
+private def tab4 (a : Array Nat) (off : Nat) : Nat → Nat := fun k => a.getD (off + k) 0
+
+private def prod (op v : String) (a : Array Nat) (x y : Array Nat) : Option String :=
+  let ell := a.getD 0 0
+  let h := a.getD 1 0
+  let baa : BaaPrecomp := { h := h, hpow := tab4 a 2 }
+  let bbb : BbbPrecomp := { h := h, s1h := tab4 a 2, s2l := tab4 a 6, s2h := tab4 a 10,
+                            s3l := tab4 a 14, s3h := tab4 a 18, s4l := tab4 a 22, s4h := tab4 a 26 }
+  let bbc : BbcPrecomp := { h := h, s2l := tab4 a 2, s2h := tab4 a 6 }
+  match op, v with
+  | "baa", "ref" => some (joinNats (baaRef baa ell x y))
+  | "baa", "avx2" => some (joinNats (baaAvx baa ell x y))
+  | "bbb", "ref" => some (joinNats (bbbRef bbb ell x y))
+  | "bbb", "avx2" => some (joinNats (bbbAvx bbb ell x y))
+  | "bbc", "ref" => some (joinNats (bbcRef bbc ell x y))
+  | "bbc", "avx2" => some (joinNats (bbcAvx bbc ell x y))
+  | "x2bbc1", "ref" => some (joinNats (x2Col1Ref bbc ell x y))
+  | "x2bbc1", "avx2" => some (joinNats (x2Col1Avx bbc ell x y))
+  | "x2bbc2", "ref" => some (joinNats (x2Col2Ref bbc ell x y))
+  | "x2bbc2", "avx2" => some (joinNats (x2Col2Avx bbc ell x y))
+  | _, _ => none
+
+def handleQ1 (args : List String) : Option String :=
+  let (hd, rest) := splitBar args
+  let (c1, c2) := splitBar rest
+  match hd with
+  | [] => none
+  | op :: ps =>
+    if op == "baa" || op == "bbb" || op == "bbc" || op == "x2bbc1" || op == "x2bbc2" then
+      match ps with
+      | v :: nums => prod op v (nats nums) (nats c1) (nats c2)
+      | [] => none
+    else
+      let a := nats ps
+      let nn := a.getD 0 0
+      let p : Q120Params := { q := tab4 a 1, crt := tab4 a 5 }
+      match op with
+      | "extract" => some (joinNats (extract1blk nn (a.getD 1 0) (nats c1)))
+      | "extractc" => some (joinNats (extractContiguous nn (a.getD 1 0) (a.getD 2 0) (nats c1)))
+      | "save" => some (joinNats (save1blk nn (a.getD 1 0) (nats c1) (nats c2)))
+      | "addbbb" => some (joinNats (addBbb p nn (nats c1) (nats c2)))
+      | "addccc" => some (joinNats (addCcc p nn (nats c1) (nats c2)))
+      | "cfromb" => some (joinNats (cFromB p nn (nats c1)))
+      | "bfromznx" => some (joinNats (bFromZnx64 p nn (ints c1)))
+      | "cfromznx" => some (joinNats (cFromZnx64 p nn (ints c1)))
+      | "btoznx128" => some (joinInts (bToZnx128Vec p nn (nats c1)))
+      | _ => none
+
 end Spq.Drv
